@@ -92,7 +92,7 @@ func TestC18ChainExchange(t *testing.T) {
 		}
 		pruned := uint64(0)
 		var trace []string
-		askThenReceive, floods, prunes := 0, 0, 0
+		askThenReceive, floods, prunes, rebroadcasts, sharedPrefixes := 0, 0, 0, 0, 0
 		lookup := func(inst uint64, c *gpbft.ECChain, must bool, why string) bool {
 			k := vref.ChainKey(c)
 			got, ok := cx.GetChainByInstance(ctx, inst, gpbft.ECChainKey(k))
@@ -127,7 +127,7 @@ func TestC18ChainExchange(t *testing.T) {
 			}
 			return false, "ignore"
 		}
-		steps := rapid.IntRange(3, 25).Draw(t, "steps")
+		steps := rapid.IntRange(3, 40).Draw(t, "steps")
 		for s := 0; s < steps; s++ {
 			action := rapid.SampledFrom([]string{"remote-valid", "remote-valid", "remote-bad", "ask-then-receive", "own-broadcast", "flood", "lookup", "prune", "progress", "check-obligations"}).Draw(t, "action")
 			label := fmt.Sprintf("s%d", s)
@@ -135,6 +135,31 @@ func TestC18ChainExchange(t *testing.T) {
 			case "remote-valid", "ask-then-receive":
 				inst := cur + uint64(rapid.IntRange(0, int(lookahead)).Draw(t, "instoff"))
 				c := mkChain(label, inst, baseOf(inst))
+				// a third of the remote chains are related to one the node has seen: the same chain
+				// again (periodic re-broadcast) or a chain sharing a proper prefix with it
+				var related []obligation
+				for _, o := range pool {
+					if o.instance == inst {
+						related = append(related, o)
+					}
+				}
+				if len(related) > 0 && rapid.IntRange(0, 1).Draw(t, "related") == 0 {
+					o := related[rapid.IntRange(0, len(related)-1).Draw(t, "relidx")]
+					if rapid.Bool().Draw(t, "rebroadcast") {
+						c = o.chain
+						rebroadcasts++
+					} else {
+						keep := rapid.IntRange(1, o.chain.Len()).Draw(t, "sharedprefix")
+						ts := append([]*gpbft.TipSet(nil), o.chain.TipSets[:keep]...)
+						e := ts[len(ts)-1].Epoch
+						for i := rapid.IntRange(0, maxLen-keep).Draw(t, "forkext"); i > 0; i-- {
+							e += int64(rapid.IntRange(1, 2).Draw(t, label+".fgap"))
+							ts = append(ts, &gpbft.TipSet{Epoch: e, Key: vgen.DetBytes(8, label, "fork", inst, i), PowerTable: vgen.DetCid(label, "fork", inst, i)})
+						}
+						c = vgen.Chain(ts...)
+						sharedPrefixes++
+					}
+				}
 				pool = append(pool, obligation{inst, c, "", nil})
 				if action == "ask-then-receive" {
 					// the node asks first (miss leaves a placeholder), then the chain arrives
@@ -309,7 +334,7 @@ func TestC18ChainExchange(t *testing.T) {
 			}
 		}
 		nt := (askThenReceive > 0 && floods > 0) || (askThenReceive > 0 && prunes > 0)
-		vev.Case(c18, vev.Digest(fmt.Sprint(trace), capD, capW), nt, "history", fmt.Sprintf("ask-then-receive:%v", askThenReceive > 0), fmt.Sprintf("flood:%v", floods > 0), fmt.Sprintf("prune:%v", prunes > 0))
+		vev.Case(c18, vev.Digest(fmt.Sprint(trace), capD, capW), nt, "history", fmt.Sprintf("ask-then-receive:%v", askThenReceive > 0), fmt.Sprintf("flood:%v", floods > 0), fmt.Sprintf("prune:%v", prunes > 0), fmt.Sprintf("rebroadcast-of-known-chain:%v", rebroadcasts > 0), fmt.Sprintf("chains-sharing-a-prefix:%v", sharedPrefixes > 0))
 		vev.Sample(c18, func() any {
 			return map[string]any{"discovered_capacity": capD, "wanted_capacity": capW, "lookahead": lookahead, "trace": trace}
 		})
